@@ -159,10 +159,28 @@ func verifClientChain(caDer []byte, signer crypto.Signer, cn string, notBefore t
 	return leaf, [][]*x509.Certificate{{leaf, ca}}
 }
 
+// the CA certificate of the main signer among state.caCertDer: the one whose public key is the
+// signer's (its position in the list is an implementation detail of the loading code)
+func verifMainCADer(st *RuntimeState) []byte {
+	if st.Signer != nil {
+		want, err := x509.MarshalPKIXPublicKey(st.Signer.Public())
+		if err == nil {
+			for _, der := range st.caCertDer {
+				if c, err := x509.ParseCertificate(der); err == nil {
+					if got, err := x509.MarshalPKIXPublicKey(c.PublicKey); err == nil && bytes.Equal(got, want) {
+						return der
+					}
+				}
+			}
+		}
+	}
+	return st.caCertDer[len(st.caCertDer)-1]
+}
+
 // keymaster-issued user certificate (signed by the main CA)
 func (env *verifEnv) keymasterChain(user string, notBefore time.Time, pub crypto.PublicKey) [][]*x509.Certificate {
 	st := env.state
-	_, ch := verifClientChain(st.caCertDer[len(st.caCertDer)-1], st.Signer, user, notBefore, pub, nil)
+	_, ch := verifClientChain(verifMainCADer(st), st.Signer, user, notBefore, pub, nil)
 	return ch
 }
 
